@@ -16,6 +16,8 @@ def with_input(case, inp):
         c["strings"] = inp["strings"]
     if "cmp_deliv" in inp:
         c["cmp_deliv"] = inp["cmp_deliv"]
+    if inp.get("bufsize"):
+        c["bufsize"] = inp["bufsize"]
     return c
 
 
@@ -82,14 +84,22 @@ def run_case(flex, case, configs, inputs, workdir, rng=None, expect_build=None,
         rskey = (c2["opts"].get("bits"), c2["opts"].get("ci"), c2["opts"].get("posix"),
                  c2["opts"].get("nodefault"))
         for ii, inp in enumerate(inputs):
+            if cfg.get("input_filter") and not cfg["input_filter"](inp):
+                continue
+            if cfg.get("input_flags"):
+                inp = dict(inp)
+                inp["flags"] = inp.get("flags", 0) | cfg["input_flags"]
             ci = with_input(c2, inp)
+            if cfg.get("deliv"):
+                ci["cmp_deliv"] = True
             rs = rs_cache.get(rskey)
             if rs is None:
                 rs = rs_cache[rskey] = model.RuleSet(ci)
             ro = runner.run_scanner(built, ci, d, tag="i%d" % ii, sched=inp.get("sched"),
                                     flags=inp.get("flags", 0), cpu_s=cpu_s,
                                     alloc_fail_at=inp.get("alloc_fail_at", 0),
-                                    read_faults=inp.get("read_faults", ()))
+                                    read_faults=inp.get("read_faults", ()),
+                                    bufsize=inp.get("bufsize", 0))
             res.runs += 1
             if keep_logs:
                 res.logs[(tag, ii)] = ro.log
@@ -97,7 +107,7 @@ def run_case(flex, case, configs, inputs, workdir, rng=None, expect_build=None,
                 if ro.kind == "timeout":
                     ro2 = runner.run_scanner(built, ci, d, tag="i%d" % ii,
                                              sched=inp.get("sched"), flags=inp.get("flags", 0),
-                                             cpu_s=cpu_s)
+                                             cpu_s=cpu_s, bufsize=inp.get("bufsize", 0))
                     if ro2.kind != "timeout":
                         ro = ro2
                 if ro.kind in ("sanitizer", "signal", "exit", "harness", "timeout"):
@@ -132,6 +142,10 @@ def save_problem(p):
     def f(d):
         runner.save_replay(d, p.get("built"), p.get("case"), p.get("runout"),
                            {"problem": p["kind"], "what": p["what"][:8000],
-                            "cfg": p.get("cfg"), "sched": (p.get("inp") or {}).get("sched"),
+                            "cfg": {k: v for k, v in (p.get("cfg") or {}).items()
+                                    if not callable(v)},
+                            "sched": (p.get("inp") or {}).get("sched"),
+                            "bufsize": (p.get("inp") or {}).get("bufsize", 0),
+                            "flags": (p.get("inp") or {}).get("flags", 0),
                             "divergence": p.get("info")})
     return f
